@@ -25,8 +25,11 @@ import json
 import os
 import random as _random
 import re
+import queue as _queue
 import shutil
+import threading
 import time
+import types
 import traceback
 from datetime import datetime, timedelta, timezone
 from pathlib import Path
@@ -113,6 +116,17 @@ def gen_case1(rng):
             'tz': [rng.choice(TIME_ZONES), rng.choice(TIME_ZONES)] if rng.random() < 0.4 else None,
             'args': rng.choice(['root', 'root', 'each', 'dup', 'overlap', 'overlap', 'symlink', 'spelling']),
             'fault': rng.choice([None] * 8 + ['vanish', 'unreadable'])}
+
+
+def gen_sched_case1(rng):
+    """one connection, slow producer, stale empty() answers (see _forced_schedule)"""
+    c = gen_case1(rng)
+    c.update(concurrent=1, schedule='forced', fault=None)
+    if len(c['tree']) < 2 or sum(f['size'] for f in c['tree']) < 3 * c['settings']['chunking']['max_length']:
+        mx = c['settings']['chunking']['max_length']
+        c['tree'] = [{'parts': ['s0'], 'size': rng.randint(1, mx), 'kind': 'data'}, {'parts': ['d', 's1'], 'size': 2 * mx + rng.randint(1, mx), 'kind': 'data'},
+                     {'parts': ['d', 's2'], 'size': 3 * mx + rng.randint(0, 7), 'kind': 'data'}]
+    return c
 
 
 def read_block_size():
@@ -233,6 +247,55 @@ def _fault(kind, victim):
         yield
     finally:
         R.Repository.read_metadata, Path.open = orig_rm, orig_open
+
+
+class _StaleEmptyQueue(_queue.Queue):
+    """queue.Queue whose empty() answers late: a caller told 'empty' is preempted until the other side has put its next
+    item (or a short timeout), and a little longer - the answer it acts on is stale by then"""
+    WAIT, LINGER = 0.08, 0.01
+
+    def __init__(self, maxsize=0):
+        super().__init__(maxsize)
+        self._puts = 0
+        self._put_happened = threading.Condition()
+
+    def put(self, item, block=True, timeout=None):
+        super().put(item, block, timeout)
+        with self._put_happened:
+            self._puts += 1
+            self._put_happened.notify_all()
+
+    def empty(self):
+        answer = super().empty()
+        if answer:
+            seen = self._puts
+            with self._put_happened:
+                self._put_happened.wait_for(lambda: self._puts != seen, timeout=self.WAIT)
+            time.sleep(self.LINGER)
+        return answer
+
+
+@contextlib.contextmanager
+def _forced_schedule(on, delay=0.008):
+    """a slow chunk producer (every chunk takes a while: slow source) against a fast backend, and stale empty() answers:
+    the queue keeps running empty and the consumer keeps deciding on old information"""
+    if not on:
+        yield
+        return
+    import replicat.repository as R
+    orig_queue, orig_chunkify = R.queue, R.RepositoryProps.chunkify
+
+    def chunkify(self, it):
+        for c in orig_chunkify(self, it):
+            time.sleep(delay)
+            yield c
+
+    R.queue = types.SimpleNamespace(Queue=_StaleEmptyQueue, Empty=_queue.Empty, Full=_queue.Full)
+    R.RepositoryProps.chunkify = chunkify
+    try:
+        yield
+    finally:
+        R.queue, R.RepositoryProps.chunkify = orig_queue, orig_chunkify
 
 
 def snapshot_args(kind, src, files, wd):
@@ -371,7 +434,7 @@ def run_dir1(case, wd: Path):
                 restored.append((Path(out, *p.parts[1:]), p.read_bytes()))
         return key
 
-    with _quiet():
+    with _quiet(), _forced_schedule(case.get('schedule') == 'forced'):
         key_bytes = asyncio.run(go())
 
     problems = []
@@ -1042,7 +1105,7 @@ def do_dir1(rep, ctx, cases, with_model=True):
         try:
             problems, obs = run_dir1(case, wd)
         except Exception as e:
-            problems, obs = [(f'init/snapshot raised {type(e).__name__}: {e}', 'exception')], None
+            problems, obs = [(f'init / snapshot / restore of its own snapshot raised {type(e).__name__}: {e}', 'exception')], None
             case = dict(case, traceback=traceback.format_exc()[-1200:])
         finally:
             shutil.rmtree(wd, ignore_errors=True)
@@ -1053,6 +1116,8 @@ def do_dir1(rep, ctx, cases, with_model=True):
         rep.count('d1_hash=' + case['settings']['hashing']['name'])
         rep.count('d1_tz=' + ('/'.join(str(z) for z in case['tz']) if case.get('tz') else 'unchanged'))
         rep.count('d1_args=' + case.get('args', 'root'))
+        if case.get('schedule'):
+            rep.count('d1_forced_producer_worker_schedule')
         if case.get('fault'):
             rep.count(f'd1_fault={case["fault"]}:{(obs or {}).get("fault_outcome")}')
         if case.get('big'):
@@ -1156,6 +1221,7 @@ def run(ctx) -> Report:
     rep = Report(rule=RULE)
     corpus = corpus_cases()
     c1 = [c for c in corpus if c.get('dir') == 1] + [gen_big_case1(ctx.rng) for _ in range(ctx.scale(1, 4))] \
+        + [gen_sched_case1(ctx.rng) for _ in range(ctx.scale(8, 60))] \
         + [gen_case1(ctx.rng) for _ in range(ctx.scale(80, 2500))]
     c2 = [c for c in corpus if c.get('dir') == 2] + [gen_case2(ctx.rng) for _ in range(ctx.scale(110, 3000))]
     seeds = do_dir1(rep, ctx, c1)
@@ -1170,7 +1236,7 @@ def search(ctx, broken) -> Report:
     rep = Report(rule=RULE)
     seeds1 = [b['case'] for b in broken if isinstance(b.get('case'), dict) and b['case'].get('dir') == 1]
     seeds2 = [b['case'] for b in broken if isinstance(b.get('case'), dict) and b['case'].get('dir') == 2]
-    s = do_dir1(rep, ctx, seeds1 + [gen_big_case1(ctx.rng)] + [gen_case1(ctx.rng) for _ in range(250)], with_model=False)
+    s = do_dir1(rep, ctx, seeds1 + [gen_big_case1(ctx.rng)] + [gen_sched_case1(ctx.rng) for _ in range(20)] + [gen_case1(ctx.rng) for _ in range(250)], with_model=False)
     do_dir2(rep, ctx, seeds2 + [gen_case2(ctx.rng) for _ in range(300)], with_model=False)
     check_locations(rep, ctx, s, 2000, with_model=False)
     check_json(rep, ctx, 1500, with_model=False)
